@@ -2551,7 +2551,7 @@ func (m *streeModel) ruleReadOnly(c *Ctx) {
 //     where the comparison with the searched key was == 0.
 func (m *streeModel) ruleTreeAccessors(c *Ctx) {
 	P := c.P
-	c.rule("R-COUNT-FIELD", 2, "IsEmpty tests the field Len returns; a whole-tree rebuild counted by a tree field is counted by that field")
+	c.rule("R-COUNT-FIELD", 1, "IsEmpty tests the field Len returns; a whole-tree rebuild counted by a tree field is counted by that field")
 	c.rule("R-REMOVE-PROMOTE", 0, "the child link the removal returns in place of the removed node is not one known to be nil while its sibling is not")
 	c.rule("R-CURRENT-NODE", 0, "cursor predicates and moves read the children of the last element of the path")
 	c.rule("R-CURSOR-EQUAL", 1, "Tree.Cursor returns a positioned cursor only where the comparison with the key was == 0")
